@@ -25,6 +25,7 @@ def c01(ctx, rep):
     rules_tables.normalisation(ctx, rep)
     rules_tables.search_preconditions(ctx, rep)
     rules_tables.search_callsite(ctx, rep)
+    rules_api.detection(ctx, rep)
     rep.assumptions += ['injected NFC/NFKD agree with Unicode normalisation (Python unicodedata is the oracle for the table constants)',
                         'the comparator bodies implement the reference matching rule (C08)']
     return ('conjunction of necessary conditions that is also the proof skeleton of the round trip: packing bijection and symmetric coin '
@@ -77,7 +78,12 @@ def c06(ctx, rep):
 
 def c09(ctx, rep):
     rules_api.decoders(ctx, rep)
-    return 'exit summaries of both decoders (status precedence, sibling agreement)'
+    rules_api.detection(ctx, rep)
+    rules_cmp.dispatch(ctx, rep)
+    rep.assumptions += ['NOT decided: token-boundary behaviour of str_split over all strings (empty tokens, 17th token, single trailing space): a loop '
+                        'over an unbounded string with data-dependent exits; only its memory safety (C14) and that its result is compared with 16 are decided']
+    return ('exit summaries of both decoders (status precedence, sibling agreement) and of the detection loop over all 2^10 per-language '
+            'outcome assignments, with the per-language search summarised')
 
 
 def c10(ctx, rep):
